@@ -135,6 +135,7 @@ func CheckTarget(target []byte, st *state.State) (bool, error) {
 func applyTarget(target []byte, st *state.State, ca cache.Memory, ctx context.Context) (string, uint16, error) {
 	var err error
 	sym, idx := st.Where()
+	location := sym
 
 	ok := valid(target)
 	if !ok {
@@ -173,6 +174,11 @@ func applyTarget(target []byte, st *state.State, ca cache.Memory, ctx context.Co
 		return location, idx, nil
 	default:
 		sym = string(target)
+		if sym == location {
+			// State.Down panics on this; it is reachable from well-formed code, e.g. the MOVE
+			// left behind an INCMP line that has just matched with the same target
+			return sym, idx, fmt.Errorf("already at node '%s'", sym)
+		}
 		if st.Depth()+1 >= state.MaxLevel {
 			// State.Down panics beyond the limit; a client must not be able to get there
 			return sym, idx, fmt.Errorf("max levels exceeded (%d)", state.MaxLevel)
